@@ -11,7 +11,7 @@ from sa.report import Ctx
 
 from .common import generic_sweeps
 
-from .sat_common import SatRoles, _enclosing_block, check_add_sites, check_backtrack
+from .sat_common import SatRoles, _enclosing_block, check_add_sites, check_assumption_assertion, check_backtrack
 
 EXPLANATION = (
     "Decides structural necessary conditions of 'every returned assignment satisfies every clause / agrees with "
@@ -35,6 +35,7 @@ def run(ctx: Ctx):
     check_blocking(ctx, roles)
     check_unassign_heap(ctx, roles)
     check_model_record(ctx, roles)
+    check_assumption_assertion(ctx, roles, "C01-O6")
     generic_sweeps(ctx, skip_stutter_modules=("solvor/sat.py",))
 
 
@@ -169,8 +170,10 @@ def check_model_record(ctx: Ctx, roles: SatRoles):
         g_ok = g_ok and any("UNDEF ==" in a or "== UNDEF" in a for a in at)
     ctx.ob("C01-O5", "R1 STATUS-GUARD", pick, "pick returns only unassigned variables", g_ok, "", node=pick.node)
     # sol comprehension covers all variables
-    sols = [n for n in own_nodes(f.node) if isinstance(n, ast.DictComp)]
-    ctx.require(bool(sols), "model dict comprehension not found")
+    # the model dict is the comprehension whose value is recorded in `all_solutions`
+    rec_names = {ast.unparse(n.args[0]) for n in own_nodes(f.node) if isinstance(n, ast.Call) and isinstance(n.func, ast.Attribute) and n.func.attr == "append" and ast.unparse(n.func.value) == "all_solutions"}
+    sols = [n.value for n in own_nodes(f.node) if isinstance(n, ast.Assign) and isinstance(n.value, ast.DictComp) and ast.unparse(n.targets[0]) in rec_names]
+    ctx.require(bool(sols), "model dict comprehension (recorded in all_solutions) not found")
     for d in sols:
         g = d.generators[0]
         ok = ast.unparse(g.iter) == "range(1, n_vars + 1)" and ast.unparse(d.value) in (f"vals[{g.target.id}] == 1",) and ast.unparse(d.key) == g.target.id
@@ -266,7 +269,14 @@ def _t_pop_form(tree):
     M.replace_stmt(g, lambda s: isinstance(s, ast.Delete), [])
 
 
+def _v_assumptions_collapsed(tree):
+    g = M.find_func(tree, "solve_sat.propagate")
+    M.replace_stmt(g, lambda s: isinstance(s, ast.For) and M.src_is(s.iter, "assumptions"), M.stmts("for var, want in {lit_var(lit): lit > 0 for lit in assumptions}.items():\n    v = vals[var]\n    if v == UNDEF:\n        assign(var, want, -1)\n    elif (v == 1) != want:\n        conflicts += 1\n        return -2"))
+
+
 VARIANTS = [
+    M.Variant("assumption list collapsed per variable before assertion (seed C01-B)", SAT, _v_assumptions_collapsed, "C01-O6"),
+
     M.Variant("backtrack reads the boundary after shrinking (original defect)", SAT, _v_backtrack_reads_after_shrink, "C01-O2"),
     M.Variant("backtrack cuts at trail_lim[level-1]", SAT, _v_backtrack_cut_prev_level, "C01-O2"),
     M.Variant("blocking clause stored with deletable score (original defect)", SAT, _v_blocking_score, "C01-O4"),
